@@ -8,6 +8,7 @@ import O1722.Model.Utils
 import O1722.Model.Can
 import O1722.Model.Vss
 import O1722.Model.Tunnel
+import O1722.Model.Listeners
 
 namespace O1722.Driver
 open O1722 O1722.Spec
@@ -238,8 +239,38 @@ def step (st : State) (line : String) : State × String :=
     ({ st with pkts := st.pkts ++ pk, frames := [], seq := st.seq + pk.length, udpSeq := st.udpSeq + pk.length },
       "\n".intercalate (pk.map (fun p => "pkt " ++ hexOfBytes p)))
   | ["listen"] =>
-    let outs := st.pkts.flatMap (fun p => listenPacket st.tun (recvBuf 0xAA p))
+    let outs := st.pkts.flatMap (fun p => listenPacket st.tun (recvBuf 0xAA p) p.length)
     ({ st with pkts := [] }, "\n".intercalate (outs.map (fun o => s!"out {o.canId} {o.len} {o.flags} " ++ hexOfBytes o.data)))
+  -- example listeners on one raw datagram: MODELS of the receive paths (Model/Tunnel, Model/Listeners).
+  -- `stale` is the byte the buffer holds behind the datagram (the results do not depend on it
+  -- where the listener checks the received length: C18_*_local)
+  | ["rx", "can", t, u, f, hex] =>
+    match parseHex hex with
+    | some d =>
+      let pkt := (bytesOf d).take 1500
+      let outs := listenPacket ⟨t == "t", u == "u", f == "f"⟩ (recvBuf 0xAA pkt) pkt.length
+      (st, "\n".intercalate (outs.map (fun o => s!"can {o.canId} {o.len} {o.flags} " ++ hexOfBytes o.data)))
+    | none => (st, "bad-op")
+  | ["rx", "hello", u, hex] =>
+    match parseHex hex with
+    | some d => let r := recvInto 1500 0xAA (bytesOf d); (st, "out " ++ hexOfBytes (helloRecv (u == "u") r.1 r.2))
+    | none => (st, "bad-op")
+  | ["rx", "vss", u, hex] =>
+    match parseHex hex with
+    | some d => let r := recvInto 1500 0xAA (bytesOf d); (st, "out " ++ hexOfBytes (vssRecv (u == "u") r.1 r.2))
+    | none => (st, "bad-op")
+  | ["rx", "cvf", hex] =>
+    match parseHex hex with
+    | some d =>
+      let r := recvInto CVF_BUF 0x01 (bytesOf d)
+      (st, match cvfRecv r.1 r.2 with | some nal => "out " ++ hexOfBytes nal | none => "drop")
+    | none => (st, "bad-op")
+  | ["rx", "aaf", hex] =>
+    match parseHex hex with
+    | some d =>
+      let r := recvInto AAF_PDU 0x00 (bytesOf d)
+      (st, match aafRecv r.1 r.2 with | some smp => "out " ++ hexOfBytes smp | none => "drop")
+    | none => (st, "bad-op")
   -- VSS: the hand MODEL of Vss.c (host order little, as the harness host)
   | ["vss_pad", id, off, len] =>
     match st.get id, nat? off, nat? len with
